@@ -59,6 +59,9 @@ def run(F, R):
     for _k, _v in _r.items():
         if _v == 'add':
             e3_capacity(F, R, M, _k, rule='O8', rule1='O8')
+    # O10: "never moves backwards" and slot selection rely on the free-running indices being advanced by wrapping arithmetic only
+    from .C03 import counters_rule
+    counters_rule(F, R, 'O10')
     eps = queue_api_entry_points(F, M)
     R.count('entry_points', len(eps))
     idx_writer_fns = []
